@@ -15,10 +15,10 @@ StEq(a, b) == a.n = b.n /\ a.xs = b.xs /\ a.nested = b.nested /\ a.dl = b.dl /\ 
 Clauses(c) ==
   IF c.op = "copy"
   THEN (IF c.exc # "" THEN {"C14-copy-raised"} ELSE
-        (IF StEq(c.post, CopiedAs(c.pre, c.kind)) THEN {} ELSE
-           IF KF22Guard(c.pre) /\ StEq(c.post, Copied_KF22(c.pre, c.kind)) THEN {"KF22"} ELSE
-           IF KF22Guard(c.pre) /\ c.kind = "clone_deep" /\ StEq(c.post, Copied_KF22_deep(c.pre, c.kind)) THEN {"KF22"} ELSE
-           IF StEq([c.post EXCEPT !.tmp = 0], CopiedAs(c.pre, c.kind)) THEN {"C14-transient-not-at-default"} ELSE {"C14-copy-state-differs"})
+        (IF StEq(c.post, CopiedAs(c.pre, c.kind, c.haspv)) THEN {} ELSE
+           IF KF22Guard(c.pre) /\ StEq(c.post, Copied_KF22(c.pre, c.kind, c.haspv)) THEN {"KF22"} ELSE
+           IF KF22Guard(c.pre) /\ c.kind = "clone_deep" /\ StEq(c.post, Copied_KF22_deep(c.pre, c.kind, c.haspv)) THEN {"KF22"} ELSE
+           IF StEq([c.post EXCEPT !.tmp = 0], CopiedAs(c.pre, c.kind, c.haspv)) THEN {"C14-transient-not-at-default"} ELSE {"C14-copy-state-differs"})
         \cup (IF c.sameclass = 1 THEN {} ELSE {"C14-copy-of-other-class"})
         \cup (IF c.pvread = PvRead(c.post) THEN {} ELSE {"C14-deferred-attribute-read-on-copy"})
         \cup (IF c.shared = 0 THEN {} ELSE {"C14-copy-shares-mutable-container"})
@@ -31,7 +31,7 @@ Clauses(c) ==
        \cup (IF c.pvread = PvRead(c.post) THEN {} ELSE {"C14-deferred-attribute-read"})
        \* a change of the prototype's value notifies the handlers of the deferred attribute while it is linked, and not
        \* once it holds a value of its own - on originals and on copies alike
-       \cup (IF c.op = "child_value" /\ c.exc = "" /\ c.pvn # (IF c.pre.pvset = 0 /\ c.pre.child.value # c.v THEN 1 ELSE 0)
+       \cup (IF c.haspv = 1 /\ c.op = "child_value" /\ c.exc = "" /\ c.pvn # (IF c.pre.pvset = 0 /\ c.pre.child.value # c.v THEN 1 ELSE 0)
              THEN {"C14-deferred-attribute-notification"} ELSE {})
        \cup (IF c.obs = r.obs THEN {} ELSE {"C14-declared-observer"})
        \cup (IF c.dyn = r.dyn THEN {} ELSE {"C14-items-handler"})
